@@ -30,13 +30,16 @@ func (o *objectGoSliceReflect) grow(size int) {
 	if oldcap < size {
 		n := reflect.MakeSlice(o.fieldsValue.Type(), size, growCap(size, o.fieldsValue.Len(), oldcap))
 		reflect.Copy(n, o.fieldsValue)
+		for i := range o.valueCache {
+			o.cached(i) // forget wrappers that no longer refer to the current elements
+		}
 		o.fieldsValue.Set(n)
 		l := len(o.valueCache)
 		if l > size {
 			l = size
 		}
-		for i, w := range o.valueCache[:l] {
-			if w != nil {
+		for i := 0; i < l; i++ {
+			if w := o.valueCache[i]; w != nil {
 				w.setReflectValue(o.fieldsValue.Index(i))
 			}
 		}
@@ -51,6 +54,9 @@ func (o *objectGoSliceReflect) grow(size int) {
 }
 
 func (o *objectGoSliceReflect) shrink(size int) {
+	for i := size; i < len(o.valueCache); i++ {
+		o.cached(i) // forget wrappers that no longer refer to the current elements
+	}
 	o.valueCache.shrink(size)
 	tail := o.fieldsValue.Slice(size, o.fieldsValue.Len())
 	zero := reflect.Zero(o.fieldsValue.Type().Elem())
